@@ -31,8 +31,10 @@ def pc_op(sc):
     return f
 
 
-def harness_scen(sc, kind=None):
+def harness_scen(sc, kind=None, share=None):
     obj = {"kind": kind or sc["kind"]}
+    if share:
+        obj["share"] = share             # "ref": the threads share ONE handle by reference instead of owning clones of it
     if "scale" in sc:
         obj["scale"] = sc["scale"]       # float metrics: amounts x scale (a power of two), observed values / scale
     if "base" in sc:
@@ -102,9 +104,12 @@ def run_scenario(ctx, pid, exe, sc, label, stats, samples, oracle_mod, oracle_in
     pb = pb if pb is not None else ((3, 400) if ctx.quick else (4, 20000))
     if pb and pb[1]:
         for kind in kinds:
-            res, info = pb_explore(ctx, exe, harness_scen(sc, kind), label + kind, pb[0], pb[1], nproc=nproc)
+            # the systematic search shares one handle by reference between the threads (the other schedules use clones)
+            share = "ref" if kind in ("counter", "intcounter", "gauge", "intgauge") else None
+            res, info = pb_explore(ctx, exe, harness_scen(sc, kind, share), label + kind, pb[0], pb[1], nproc=nproc)
             for x in res:
                 x["kind"] = kind
+                x["share"] = share
             results += res
             stats["pb_executions"] = stats.get("pb_executions", 0) + info["executions"]
             stats["pb_complete"] = stats.get("pb_complete", 0) + (1 if info["complete"] else 0)
@@ -112,7 +117,7 @@ def run_scenario(ctx, pid, exe, sc, label, stats, samples, oracle_mod, oracle_in
     by_id = {}
     for x in results:
         by_id[(x["id"], x["kind"])] = x
-        rp = {"scenario": harness_scen(sc, x["kind"]), "job": {"id": x["id"], "mode": "choices", "choices": x["choices"]}, "oracle": [oracle_mod, oracle_inv]}
+        rp = {"scenario": harness_scen(sc, x["kind"], x.get("share")), "job": {"id": x["id"], "mode": "choices", "choices": x["choices"]}, "oracle": [oracle_mod, oracle_inv]}
         if x.get("nonterm"):
             stats["nonterm"] += 1
             ctx.violation("nonterminating", "a call did not return within the step budget under schedule %s" % x["id"], rp)
@@ -135,14 +140,14 @@ def run_scenario(ctx, pid, exe, sc, label, stats, samples, oracle_mod, oracle_in
     for h, x in hs:
         if not ints_only(h):
             ctx.violation("value-not-integral", "a read returned a value no combination of the (integer) updates explains: job %s" % x["id"],
-                          {"scenario": harness_scen(sc, x["kind"]), "job": {"id": x["id"], "mode": "choices", "choices": x["choices"]}, "history": h, "oracle": [oracle_mod, oracle_inv]})
+                          {"scenario": harness_scen(sc, x["kind"], x.get("share")), "job": {"id": x["id"], "mode": "choices", "choices": x["choices"]}, "history": h, "oracle": [oracle_mod, oracle_inv]})
         else:
             good.append((h, x))
     rej = oracle(ctx, oracle_mod, oracle_inv, [h for h, _ in good], label)
     for i in sorted(rej):
         h, x = good[i]
         ctx.violation("history-rejected", "%s rejects the recorded history of job %s on a %s (scenario %s)" % (oracle_mod, x["id"], x["kind"], label),
-                      {"scenario": harness_scen(sc, x["kind"]), "job": {"id": x["id"], "mode": "choices", "choices": x["choices"]}, "history": h, "oracle": [oracle_mod, oracle_inv]})
+                      {"scenario": harness_scen(sc, x["kind"], x.get("share")), "job": {"id": x["id"], "mode": "choices", "choices": x["choices"]}, "history": h, "oracle": [oracle_mod, oracle_inv]})
     stats["histories"] += len(good)
     stats["rejected"] += len(rej)
 
